@@ -79,6 +79,58 @@ class Result:
                                 f"on the pinned tree — the rule would pass vacuously")
 
 
+class Relabel:
+    """proxy of a Result that files another property's rule instances under this property's rule ids"""
+
+    def __init__(self, res: Result, mapping: Dict[str, str]):
+        self._res = res
+        self._map = mapping
+
+    def _r(self, rule: str) -> str:
+        return self._map.get(rule, self._map.get("*", rule))
+
+    def rule(self, rid, text):
+        pass
+
+    def analysed(self, *funcs):
+        self._res.analysed(*funcs)
+
+    def ok(self, rule, instance, facts=None, nontrivial=True):
+        self._res.ok(self._r(rule), instance, facts, nontrivial)
+
+    def abstain(self, rule, instance, why):
+        self._res.abstain(self._r(rule), instance, why)
+
+    def fail(self, rule, where, construct, message, file="", line=0, facts=None, instance=None):
+        self._res.fail(self._r(rule), where, construct, message, file, line, facts, instance)
+
+    def fail_at(self, rule, func, construct, message, node=None, facts=None):
+        self._res.fail_at(self._r(rule), func, construct, message, node, facts)
+
+    def expect_count(self, rule, what, got, at_least):
+        self._res.expect_count(self._r(rule), what, got, at_least)
+
+    @property
+    def assumptions(self):
+        return self._res.assumptions
+
+    @property
+    def notes(self):
+        return self._res.notes
+
+    @property
+    def extra(self):
+        return self._res.extra
+
+    @property
+    def findings(self):
+        return self._res.findings
+
+    @property
+    def obligations(self):
+        return self._res.obligations
+
+
 def load_known() -> List[Dict[str, Any]]:
     if not os.path.exists(KNOWN_FILE):
         return []
